@@ -41,13 +41,15 @@ using bpp::Parameter;
 using bpp::ParameterList;
 
 static const long NINF = -1000000, PINF = 1000000, UNKNOWN = -999999;
-static const double STEP = 1e-12; // NumConstants::TINY(), the default precision of a constraint
+static const double STEP = 1e-12; // NumConstants::TINY(), the default precision of a constraint (a scenario may use another one)
 
 // ---------------------------------------------------------------- E1 codec
 struct Codec
 {
   std::vector<double> pool;
   std::vector<std::string> text; // exact decimal spelling of each pool point
+  double step = STEP;            // the precision every constraint of the scenario is built with: codes 4k+-1 are exactly
+                                 // pool[k] +- step, the double the library computes as bound +- its own precision
   long K() const { return static_cast<long>(pool.size()); }
   long lowest() const { return -2; }
   long highest() const { return 4 * (K() - 1) + 2; }
@@ -60,8 +62,8 @@ struct Codec
     switch (r)
     {
     case 0: return pool[static_cast<size_t>(k)];
-    case 1: return pool[static_cast<size_t>(k)] + STEP;
-    case 3: return pool[static_cast<size_t>(k + 1)] - STEP;
+    case 1: return pool[static_cast<size_t>(k)] + step;
+    case 3: return pool[static_cast<size_t>(k + 1)] - step;
     default:
       if (k < 0) return pool[0] - 0.5;
       if (k >= K() - 1) return pool[static_cast<size_t>(K() - 1)] + 0.5;
@@ -125,7 +127,9 @@ struct World
   explicit World(Rng& r) : cd(), rng(r), ids(), keep(), byId(), held(), lists(), owners() {}
 
   // ------------------------------------------------------------ pools
-  void makePool(long k, bool integer)
+  // G: granularity of the pool in units of 1e-9 (1 for the default constraint precision; 100 x precision otherwise, so
+  // that "one precision step from a bound" stays far from the next point and from the mid-points)
+  void makePool(long k, bool integer, long long G = 1)
   {
     cd.pool.clear();
     cd.text.clear();
@@ -150,6 +154,26 @@ struct World
     while (static_cast<long>(nano.size()) < k)
     {
       long long m;
+      if (G > 1)
+      {
+        long long R = 1000000000000LL / G;
+        switch (rng.below(3))
+        {
+        case 0: m = static_cast<long long>(rng.range(-static_cast<long>(R), static_cast<long>(R))) * G; break;
+        case 1: m = static_cast<long long>(rng.range(-40, 40)) * G; break;
+        default:
+          if (nano.empty()) continue;
+          {
+            auto it = nano.begin();
+            std::advance(it, static_cast<long>(rng.below(nano.size())));
+            m = *it + (rng.coin() ? G : -G);
+            if (m > 1000000000000LL || m < -1000000000000LL) continue;
+          }
+          break;
+        }
+        nano.insert(m);
+        continue;
+      }
       switch (rng.below(5))
       {
       case 0: m = static_cast<long long>(rng.range(-1000000000L, 1000000000L)) * 1000; break; // |x| <= 1e3
@@ -178,7 +202,8 @@ struct World
     }
   }
 
-  void reset(const char* mode, long k, bool integer = false)
+  // stepKind: 0 default constraint precision 1e-12, 1: 1e-6, 2: 1e-3 (coarser pools), 3: 0.25 on an integer pool
+  void reset(const char* mode, long k, bool integer = false, int stepKind = 0)
   {
     lists.clear();
     owners.clear();
@@ -188,8 +213,9 @@ struct World
     ids.clear();
     nextId = 1;
     nextList = 1;
-    makePool(k, integer);
-    tracer().emit(Obj().kv("e", "Reset").kv("mode", mode).kv("K", cd.K()));
+    cd.step = stepKind == 1 ? 1e-6 : stepKind == 2 ? 1e-3 : stepKind == 3 ? 0.25 : STEP;
+    makePool(k, integer || stepKind == 3, stepKind == 1 ? 100000LL : stepKind == 2 ? 100000000LL : 1);
+    tracer().emit(Obj().kv("e", "Reset").kv("mode", mode).kv("K", cd.K()).kv("step", stepKind == 1 ? "1e-6" : stepKind == 2 ? "1e-3" : stepKind == 3 ? "0.25" : "1e-12"));
     ++scenarios;
   }
 
@@ -267,6 +293,13 @@ struct World
   std::shared_ptr<IntervalConstraint> mkCon(const Iv& i)
   {
     double lo = cd.dec(i.lo), hi = cd.dec(i.hi);
+    if (cd.step != STEP)
+    {
+      // a constraint with its own precision: the step inside an open bound is that precision
+      if (i.lo != NINF && i.hi == PINF && i.iu == 0 && rng.coin()) return std::make_shared<IntervalConstraint>(true, lo, i.il != 0, cd.step);
+      if (i.lo == NINF && i.hi != PINF && i.il == 0 && rng.coin()) return std::make_shared<IntervalConstraint>(false, hi, i.iu != 0, cd.step);
+      return std::make_shared<IntervalConstraint>(lo, hi, i.il != 0, i.iu != 0, cd.step);
+    }
     // the half-infinite constructor and the library's shared constants are used where they denote the same interval
     if (i.lo != NINF && i.hi == PINF && i.iu == 0 && rng.coin())
     {
@@ -905,7 +938,7 @@ static void modeAlg(World& w, long K, long n)
   }
   for (long s = 0; s < n; ++s)
   {
-    w.reset("alg", w.rng.range(3, 8));
+    w.reset("alg", w.rng.range(3, 8), false, static_cast<int>(w.rng.below(4) == 0 ? 0 : w.rng.below(3)));
     long m = w.rng.range(4, 10);
     for (long t = 0; t < m; ++t)
     {
@@ -926,7 +959,14 @@ static void modeParam(World& w, long n, bool precMode)
   Rng& rng = w.rng;
   for (long s = 0; s < n; ++s)
   {
-    w.reset(precMode ? "prec" : "param", rng.range(precMode ? 4 : 5, precMode ? 6 : 8), precMode);
+    // constraints with a precision of their own in 45 % of the plain scenarios (the step inside an open bound is theirs)
+    int stepKind = 0;
+    if (!precMode)
+    {
+      size_t q = rng.below(100);
+      stepKind = q < 55 ? 0 : q < 70 ? 1 : q < 85 ? 2 : 3;
+    }
+    w.reset(precMode ? "prec" : "param", rng.range(precMode ? 4 : 5, precMode ? 6 : 8), precMode, stepKind);
     long len = rng.range(8, 30);
     int listA = 0, listB = 0;
     for (long t = 0; t < len; ++t)
@@ -1217,7 +1257,10 @@ static void modeCross(World& w, long K)
   for (const Iv& iv : all)
     for (long v = -2; v <= 4 * (K - 1) + 2; ++v)
     {
-      w.reset("cross", K);
+      // the constraint's own precision: default, 1e-3 and 0.25 in turn (the grid's gaps are >= 0.75)
+      static long turn = 0;
+      w.reset("cross", K, false, turn % 3 == 0 ? 0 : turn % 3 == 1 ? 2 : 3);
+      ++turn;
       std::vector<double> g{0.0, 1.0, 2.5, -1.75};
       std::vector<double> p(g.begin(), g.begin() + K);
       std::sort(p.begin(), p.end());
